@@ -13,7 +13,18 @@ FULL = {'vi': True, 'ni': True, 'vo': True, 'no': True, 'enc': False}
 PAIR = {'roles': ['c', 's'], 'qsids': [1, 2, 3], 'max_closed': 2, 'cfg': {'c': FULL, 's': FULL},
         'setup': [{'a': 'call', 'x': 'c', 'c': {'op': 'init'}}, {'a': 'call', 'x': 's', 'c': {'op': 'init'}},
                   {'a': 'dlv', 'x': 's', 'k': 1}, {'a': 'dlv', 'x': 'c', 'k': 2}, {'a': 'dlv', 'x': 's', 'k': 1}]}
+CLIENT = {'roles': ['c'], 'qsids': [1, 3], 'max_closed': 2, 'cfg': {'c': FULL, 's': FULL},
+          'setup': [{'a': 'call', 'x': 'c', 'c': {'op': 'init'}}, {'a': 'recv', 'x': 'c', 'fs': [{'t': 'SET', 'ack': False, 's': []}]}]}
+TEXT_RE = {'decode_error_text_embeds_address': r'<memory at 0x[0-9a-fA-F]+>'}
 MANUAL = [
+    ('decode_error_text_embeds_address', ['C28'],
+     'the ProtocolError raised for a header block whose HPACK integer is over-long carries the message of the hpack library, '
+     'which contains the repr of a memoryview with its address ("Error decoding header block: Variable integer representation is '
+     'too long: <memory at 0x7f...>"): the exception text differs from process to process for the same input. The text comes from '
+     'the hpack dependency; h2 only passes it on, and dropping it would remove information, so it is recorded rather than '
+     'repaired. Found by the two-interpreter comparison of recorded random traces (client/headers/510)', CLIENT,
+     [{'a': 'call', 'x': 'c', 'c': {'op': 'hdr', 'sid': 1, 'h': 'req_get', 'es': False, 'pr': []}},
+      {'a': 'recv', 'x': 'c', 'fs': [{'t': 'HEADERS', 'sid': 1, 'es': False, 'h': 'resp200', 'pr': [], 'blk': 'bad'}]}]),
     ('sent_window_overflow_unchecked', ['C01'],
      'update_settings announces an INITIAL_WINDOW_SIZE which, added to a stream window the same endpoint has enlarged with '
      'increment_flow_control_window, exceeds 2^31-1: the receiving h2 endpoint must treat the SETTINGS frame as a '
@@ -54,6 +65,10 @@ def main():
         print(dev, obs['r'], [f['t'] for f in obs['o']])
         by[dev] = {'id': dev, 'properties': props, 'deviation': dev, 'what': what, 'scenario': 'manual (from recorded traces)',
                    'program': prog, 'at': len(steps), 'asbuilt': {k: obs[k] for k in ('r', 'o', 'e', 'q', 'z')}}
+        if dev in TEXT_RE:
+            import re
+            assert re.search(TEXT_RE[dev], obs['x']['exc']), obs['x']
+            by[dev]['text_re'] = TEXT_RE[dev]
     cur['findings'] = [by[d] for d in sorted(by)]
     json.dump(cur, open(findings.PATH, 'w'), indent=1, sort_keys=True)
     print(len(cur['findings']), 'findings')
